@@ -127,6 +127,9 @@ func checkC02(r *Run) {
 	cols := func(a string) string {
 		return fmt.Sprintf("%s.k, %s.k2, %s.v, %s.id", a, a, a, a)
 	}
+	// a LOOKUP JOIN whose joined side is itself a join of r and s (an outer join there retracts NULL-padded
+	// rows: the looked-up stream is a changelog)
+	nestedRight := joinKind == 4 && third && hdr.Chance(1, 2)
 	sql := "SELECT " + cols("l") + ", " + cols("r")
 	if third {
 		sql += ", " + cols("s")
@@ -137,6 +140,10 @@ func checkC02(r *Run) {
 	}
 	if third {
 		sql += " " + joinSQL[thirdKind] + " sim.s s ON " + on("r", "s")
+	}
+	if nestedRight {
+		sql = "SELECT " + cols("l") + ", x.k, x.k2, x.v, x.id, x.sk, x.sk2, x.sv, x.sid FROM sim.l l LOOKUP JOIN (SELECT " + cols("r") +
+			", s.k AS sk, s.k2 AS sk2, s.v AS sv, s.id AS sid FROM sim.r r " + joinSQL[thirdKind] + " sim.s s ON " + on("r", "s") + ") x ON " + on("l", "x")
 	}
 	if where {
 		sql += " WHERE l.v >= 1"
@@ -158,7 +165,7 @@ func checkC02(r *Run) {
 	if third {
 		r.Log("s: %s", tableString(S))
 	}
-	r.Shape(joinKind, nKeys, theta, where, third, thirdKind, optimize, len(L), len(R), len(S), outMode, whereEq, streamed)
+	r.Shape(joinKind, nKeys, theta, where, third, thirdKind, optimize, len(L), len(R), len(S), outMode, whereEq, streamed, nestedRight)
 
 	ctl := NewCtl()
 	sb := t.Block(3 * 3 * (maxRows + 1))
@@ -192,7 +199,10 @@ func checkC02(r *Run) {
 		thetaFn = func(l, rr []octosql.Value) bool { return l[2].Int < rr[2].Int }
 	}
 	want := RefJoin(kinds[joinKind], rowsToMS(L), rowsToMS(R), keyIdx, keyIdx, 4, 4, false, thetaFn)
-	if third {
+	if nestedRight {
+		inner := RefJoin(kinds[thirdKind], rowsToMS(R), rowsToMS(S), keyIdx, keyIdx, 4, 4, false, nil)
+		want = RefJoin(JoinInner, rowsToMS(L), inner, keyIdx, keyIdx, 4, 8, false, nil)
+	} else if third {
 		// the second join's left key columns are r's, at offset 4 in the first join's rows
 		lk := make([]int, nKeys)
 		for i := range lk {
@@ -265,6 +275,9 @@ func checkC02(r *Run) {
 				for _, c := range []string{"k", "k2", "v", "id"} {
 					cols = append(cols, tb+"."+c)
 				}
+			}
+			if nestedRight {
+				cols = []string{"l.k", "l.k2", "l.v", "l.id", "x.k", "x.k2", "x.v", "x.id", "sk", "sk2", "sv", "sid"}
 			}
 			printed, err := DecodePrinted(outMode, cols, text)
 			if err != nil {
